@@ -13,7 +13,7 @@ BASE = dict(
     UsageOn='FALSE', Blur='0', Welcome='"w0"', MsgIds='{"~"}', AddMsgs='<- cAdd1',
     MoodSet='{"~"}', CVs='{"~"}', Malformed='FALSE', AdvanceSteps='{5}', MaxTime='0',
     MaxMsgs='1', MaxUsage='0', MaxDepth='100', WithStop='FALSE', WithCrash='FALSE',
-    WithCrashIn='FALSE', WithFault='FALSE', WithTime='FALSE', Stringified='{}', BadMoods='{}')
+    WithCrashIn='FALSE', WithFault='FALSE', WithTime='FALSE', WithSendFail='FALSE', Stringified='{}', BadMoods='{}')
 
 S3 = '{"s1", "s2", "s3"}'
 INSTANCES = {
@@ -50,6 +50,8 @@ INSTANCES = {
     # the full abstract message space: every malformed / out-of-order command
     "proto": dict(Malformed='TRUE', MsgIds='{"~", "i1"}', GenMbox='<- cGen1'),
     "nolist": dict(AllowList='FALSE'),
+    # an add may meet a subscriber in its closing handshake (the send to it fails)
+    "sendfail": dict(Sides=S3, WithSendFail='TRUE', AddMsgs='<- cAdd2', MaxMsgs='2'),
 }
 
 PROPS_ALL = ["P01", "P02", "P03", "P04", "P05", "P06", "P07", "P08", "P09", "P10", "P12", "P13",
@@ -152,9 +154,9 @@ TESTS_SOURCE = {"C01", "C02", "C03", "C04", "C05", "C07", "C08", "C09", "C15", "
 
 
 PLAN = {
-    "C01": _p(["C01.a", "C01.b"], [("core", 9, 12), ("apps", 8, 11)], ["core", "time"],
+    "C01": _p(["C01.a", "C01.b"], [("core", 9, 12), ("apps", 8, 11), ("sendfail", 8, 10)], ["core", "time", "sendfail"],
               ["mailbox", "apps", "time", "script", "script2", "reuse", "idle"], ["P01"]),
-    "C02": _p(["C02.a", "C02.b"], [("core", 9, 12), ("time", 8, 11)], ["core", "time"],
+    "C02": _p(["C02.a", "C02.b"], [("core", 9, 12), ("time", 8, 11), ("sendfail", 8, 10)], ["core", "time", "sendfail"],
               ["fanout", "mailbox", "time", "script", "script2", "reuse", "idle"], ["P02"]),
     # C07.a is C03's premise "for as long as the nameplate lives": an incarnation ends only by the
     # causes C07 lists, so a repeated claim must be told the same id until then
@@ -216,8 +218,8 @@ PLAN = {
     "C18": dict(_p(["C18.a"], [("nolist", 8, 11), ("alloc", 8, 11), ("allocnl", 8, 11)], ["nolist"],
                    ["nameplate"], ["P18"], pairs=[("config", 120, 4000)], pairclause="C18.pair"),
                 variants={"nameplate": [dict(allow=True), dict(allow=False), dict(allow=False, usage=True, blur=3)]}),
-    "C17": dict(_p(["C17.a", "C17.b", "C17.c", "C17.d", "C17.e", "C17.f", "C17.g"], [("proto", 7, 10), ("apps", 8, 11)],
-                   ["proto"], ["proto", "apps", "script", "script2", "reuse", "idle", "crowd"], ["P17"]),
+    "C17": dict(_p(["C17.a", "C17.b", "C17.c", "C17.d", "C17.e", "C17.f", "C17.g"], [("proto", 7, 10), ("apps", 8, 11), ("sendfail", 8, 10)],
+                   ["proto", "sendfail"], ["proto", "apps", "script", "script2", "reuse", "idle", "crowd"], ["P17"]),
                 # the configured welcome notices: none, a message of the day, an error, a version, all three
                 witness_mc=[("apps", 8, "W_F2")],
                 variants={"proto": [dict(), dict(welcome={"motd": "hello \u2603"}),
